@@ -74,7 +74,7 @@ def trees(tier):
         size1.append(['rbin', op, 'k', 'pa'])
     size1 += [['where', 'r1', 'r2', 'pa'], ['where', 'r2', 'r1', 'k'], ['where', 'pa', 'pb', 'r1'], ['pipe', 'r1', 'k'], ['pipe', 'pa', 'r2'], ['pipe', 'r1', 'pb'],
               ['and_', 'r1', 'r2'], ['or_', 'r1', 'pa'], ['not_', 'r1'], ['bool', 'pa'], ['is_', 'r1', 'k'], ['is_not', 'r1', 'r2'], ['in_', 'r1', 'lst'],
-              ['len', 'lst'], ['index', 'lst', 'k0'], ['index', 'lst', 'ri'], ['map', 'lst'], ['method', 'r1'], ['attr', 'cplx'], ['attr2', 'cplx'], ['neg', 'r1'], ['abs', 'pa'],
+              ['len', 'lst'], ['index', 'lst', 'k0'], ['index', 'lst', 'ri'], ['map', 'lst'], ['method', 'r1'], ['attr', 'cplx'], ['attr2', 'cplx'], ['pipekwrev', 'lst'], ['mapkwrev', 'lst'], ['neg', 'r1'], ['abs', 'pa'],
               ['bindexpr', 'r1', 'pa'], ['call2', 'r1', 'r2'],
               ['pipekw', 'r1', 'r2'], ['pipekw', 'pa', 'pb'], ['pipekw', 'r1', 'bf'], ['mapkw', 'lst', 'r2'], ['methodkw', 'r2'],
               ['in_', 'r1', 'pl'], ['bin', 'mul', 'r1', 'plen'], ['index', 'plr', 'k0']]
@@ -183,6 +183,10 @@ class World:
             return self.build(t[1]).bit_length()
         if k == 'attr':
             return self.build(t[1]).real
+        if k == 'pipekwrev':
+            return self.build(t[1]).rx.pipe(sorted, reverse=True)        # a keyword of the piped function that is also a name used internally
+        if k == 'mapkwrev':
+            return self.build(t[1]).rx.map(lambda v, reverse=False, operator=1: (-v if reverse else v) * operator, reverse=True, operator=3)
         if k == 'attr2':
             m = self.build(t[1]).real          # one attribute-access node used by two consumers
             first = m + 1
@@ -243,6 +247,10 @@ class World:
             return self.plain(t[1]).bit_length()
         if k == 'attr':
             return self.plain(t[1]).real
+        if k == 'pipekwrev':
+            return sorted(self.plain(t[1]), reverse=True)
+        if k == 'mapkwrev':
+            return [-v * 3 for v in self.plain(t[1])]
         if k == 'attr2':
             m = self.plain(t[1]).real
             return m * 2 + (m + 1)
